@@ -29,7 +29,7 @@ func concatParked(ps []parked) []byte {
 
 func TestC20_SlotSequencerModel(t *testing.T) {
 	rec := evid.For("C20")
-	rec.SetRule("rapid state machine over ByteBuffer+SlotSequencer (maxSlots 1..8, maxBytes 8..256) and over ByteBuffer+SlotOffsetter: write+commit+Save a packet of unique bytes, Push(seq) with seq from a small range incl. negatives and duplicates, Pop(seq) of present/absent numbers followed by Discard, rejected pushes discard their own slot; model = seq->bytes in save order; non-trivial = (>=2 pops of non-oldest slots while older ones stay parked, then a push whose slot is popped later, sequencer never drained in between) OR a capacity error; distinct = hash of the trace")
+	rec.SetRule("rapid state machine over ByteBuffer+SlotSequencer (maxSlots 1..8, maxBytes 8..256) and over ByteBuffer+SlotOffsetter: packets of unique bytes arrive in batches of 1..3 (committed together, optionally followed by an uncommitted part of the next one) and are Saved one by one, Push(seq) with seq from a small range incl. negatives and duplicates, Pop(seq) of present/absent numbers followed by Discard, rejected pushes discard their own slot; model = seq->bytes in save order; non-trivial = (>=2 pops of non-oldest slots while older ones stay parked, then a push whose slot is popped later, sequencer never drained in between) OR a capacity error; distinct = hash of the trace")
 	rec.Assume("Save is immediately followed by Push (the documented workflow); a popped slot is discarded before the next Pop; a rejected push is followed by the caller discarding its own freshly saved slot")
 	vt.CheckSteps(t, 3000, 60, func(t *rapid.T) {
 		maxSlots := rapid.IntRange(1, 8).Draw(t, "maxSlots")
@@ -37,7 +37,9 @@ func TestC20_SlotSequencerModel(t *testing.T) {
 		seqLo := rapid.SampledFrom([]int{-3, 0, 100}).Draw(t, "seqLo")
 		b := sonic.NewByteBuffer()
 		s := sonic.NewSlotSequencer(maxSlots, maxBytes)
-		var live []parked // in save order
+		var live []parked    // in save order
+		var pending [][]byte // packets of the current batch, committed and not yet saved
+		var partial []byte   // bytes of the next packet, written and not yet committed
 		var trace []string
 		var tag byte
 		find := func(seq int) int {
@@ -71,18 +73,48 @@ func TestC20_SlotSequencerModel(t *testing.T) {
 			if !bytes.Equal(b.Saved(), concatParked(live)) {
 				t.Fatalf("Saved()=%x, parked packets are %x; trace=%v", b.Saved(), concatParked(live), trace)
 			}
+			if want := bytes.Join(pending, nil); !bytes.Equal(b.Data(), want) {
+				t.Fatalf("read area holds %x, the packets of the batch not yet handled are %x; trace=%v", b.Data(), want, trace)
+			}
+			if b.WriteLen() != len(partial) {
+				t.Fatalf("write area holds %d bytes, %d were received and not committed; trace=%v", b.WriteLen(), len(partial), trace)
+			}
 		}
 
 		push := func(t *rapid.T) {
 			n := rapid.OneOf(rapid.IntRange(1, 8), rapid.IntRange(1, 8), rapid.IntRange(1, 40)).Draw(t, "n")
 			seq := seqLo + rapid.IntRange(0, 11).Draw(t, "seq")
-			data := make([]byte, n)
-			for i := range data {
-				tag++
-				data[i] = tag
+			// packets arrive in batches: up to three are committed at once and handled one after the other, so the packets
+			// behind the one being saved (and a partly received one behind those) sit in the buffer while slots of earlier
+			// packets are popped and discarded
+			if len(pending) == 0 {
+				k := rapid.IntRange(1, 3).Draw(t, "batch")
+				for j := 0; j < k; j++ {
+					ln := n
+					if j > 0 {
+						ln = rapid.IntRange(1, 8).Draw(t, "bn")
+					}
+					pkt := append([]byte(nil), partial...)
+					for len(pkt) < ln || len(pkt) == len(partial) {
+						tag++
+						pkt = append(pkt, tag)
+					}
+					_, _ = b.Write(pkt[len(partial):])
+					b.Commit(len(pkt))
+					partial = nil
+					pending = append(pending, pkt)
+				}
+				if rapid.IntRange(0, 2).Draw(t, "partial") == 0 {
+					for j, pn := 0, rapid.IntRange(1, 4).Draw(t, "pn"); j < pn; j++ {
+						tag++
+						partial = append(partial, tag)
+					}
+					_, _ = b.Write(partial) // received, not yet committed
+				}
 			}
-			_, _ = b.Write(data)
-			b.Commit(n)
+			data := pending[0]
+			pending = pending[1:]
+			n = len(data)
 			slot := b.Save(n)
 			if slot.Length != n {
 				t.Fatalf("Save(%d) returned %+v; trace=%v", n, slot, trace)
